@@ -151,6 +151,69 @@ def run(ctx):
             if why:
                 fails.append({"why": why, "integrator": integ, "options": opt, "N": n, "dt": sim.dt, "steps": nsteps,
                               "G": sim.G, "dP": dP, "dL": dL, "dE": emax})
+    # hybrid integrators THROUGH close encounters between two outer planets (the encounter map is then not the
+    # identity), with and without safe_mode, synchronizing in between: energy and L stay in the accuracy class
+    for integ, sm in (("mercurius", 1), ("mercurius", 0), ("trace", 1), ("trace", 0)):
+        for rep in range(ctx.scale(2, 10)):
+            sim = rebound.Simulation()
+            sim.add(m=1.0)
+            sim.add(m=1e-5, a=0.6, e=0.02, f=rng.uniform(0, 6))
+            sim.add(m=3e-5, a=1.0, e=0.03, f=rng.uniform(0, 6))
+            a3 = 2.0; m3 = 10 ** rng.uniform(-3.5, -3); rh = a3 * (2 * m3 / 3) ** (1 / 3)
+            m4 = m3 * 10 ** rng.uniform(-1.5, 0.5)       # unequal masses: the two bodies have different critical radii
+            sim.add(m=m3, a=a3, e=0.01, f=0.0)
+            sim.add(m=m4, a=a3 + rng.uniform(2.0, 3.2) * rh, e=0.01, f=rng.uniform(0.05, 0.3))
+            sim.move_to_com()
+            sim.integrator = integ
+            try: setattr(getattr(sim, "ri_" + integ), "safe_mode", sm)
+            except AttributeError: continue
+            sim.dt = 2 * math.pi * 0.6 ** 1.5 / rng.choice([25, 31, 40])
+            E0 = sim.energy(); L0 = sim.angular_momentum(); emax = 0.0
+            nst = ctx.scale(1500, 6000)
+            with warnings.catch_warnings():
+                warnings.simplefilter("ignore")
+                for s_ in range(nst):
+                    sim.step()
+                    if s_ % 41 == 0:
+                        sim.synchronize(); emax = max(emax, abs((sim.energy() - E0) / E0))
+                sim.synchronize()
+            L1 = sim.angular_momentum()
+            dL = max(abs(L1.x - L0.x), abs(L1.y - L0.y), abs(L1.z - L0.z)) / abs(L0.z)
+            emax = max(emax, abs((sim.energy() - E0) / E0))
+            ctx.case(key=("encounter", integ, sm))
+            why = None
+            if not (emax < 1e-4): why = "relative energy error %.3g through planet-planet encounters outside accuracy class 1e-4" % emax
+            elif not (dL < 1e-9): why = "angular momentum error %.3g through planet-planet encounters" % dL
+            if why: fails.append({"why": why, "integrator": integ, "options": {"safe_mode": sm}, "N": 5, "dt": sim.dt, "steps": nst,
+                                  "G": 1.0, "m_outer": [m3, m4]})
+    # democratic-heliocentric hybrids do not care in which order the planets were added: the energy error envelope of
+    # the same system with a distant giant stored first or last must be of the same size (the encounter map is the
+    # identity in one order and a proper sub-map in the other)
+    for integ in ("mercurius", "trace"):
+        for rep in range(ctx.scale(3, 8)):
+            mp = 10 ** rng.uniform(-4.3, -3.7); rhp = (2 * mp / 3) ** (1 / 3)
+            pair = [dict(m=mp, a=1.0, e=0.01, f=0.0), dict(m=mp * rng.uniform(0.3, 1), a=1.0 + rng.uniform(4.0, 5.5) * rhp, e=0.01, f=rng.uniform(0.1, 0.5))]
+            giant = dict(m=10 ** rng.uniform(-3.3, -2.8), a=rng.uniform(4.5, 6.0), e=0.03, f=rng.uniform(0, 6))
+            em = []
+            nst = ctx.scale(4000, 12000)
+            for order in (pair + [giant], [giant] + pair):
+                sim = rebound.Simulation(); sim.add(m=1.0)
+                for q in order: sim.add(primary=sim.particles[0], **q)
+                sim.move_to_com(); sim.integrator = integ
+                getattr(sim, "ri_" + integ).r_crit_hill = 5.0
+                sim.dt = 2 * math.pi * 0.01
+                E0 = sim.energy(); e_ = 0.0
+                with warnings.catch_warnings():
+                    warnings.simplefilter("ignore")
+                    for s_ in range(nst):
+                        sim.step()
+                        if s_ % 5 == 0: e_ = max(e_, abs((sim.energy() - E0) / E0))
+                em.append(e_)
+            ctx.case(key=("order-independence", integ))
+            if not (em[1] <= 20 * em[0] + 1e-9 and em[0] <= 20 * em[1] + 1e-9 and max(em) < 1e-4):
+                fails.append({"why": "relative energy error envelope depends on the order in which the planets were added: %.3g (giant last) vs %.3g (giant first)" % (em[0], em[1]),
+                              "integrator": integ, "options": {"r_crit_hill": 5.0}, "N": 4, "dt": 2 * math.pi * 0.01, "steps": nst, "G": 1.0,
+                              "pair": pair, "giant": giant})
     # merging collisions: mass, momentum, COM
     for rep in range(ctx.scale(10, 100)):
         sim = rebound.Simulation()
